@@ -203,6 +203,10 @@ def _check(pid, tier, sc, t0, sink=None):
     tie = model_tie(pid, sc, runs)
     if tie.get("mismatch"):
         tie_broken.append(dict(kind="correspondence", **tie["mismatch"]))
+    if pid == "C06" and tie.get("unranked_states"):
+        # the model reached a configuration that violates the hypothesis of ranked_not_deadlocked
+        tie_broken.append(dict(kind="model-invariant", detail="the Lean model, replaying an implementation run, passes through %d configurations that are not Ranked(levelRank): the premise of C06_ranked_no_deadlock fails there" % tie["unranked_states"],
+                               case=tie.get("unranked_case")))
     for kid, (k, d, r) in known_hits.items():
         print("KNOWN-FINDING: property=%s %s [%s: %s]" % (pid, kid, k, d[:160]))
     rc, nviol = 0, 0
@@ -235,6 +239,7 @@ def _check(pid, tier, sc, t0, sink=None):
                rule="executions = (client programs x schedules) on the shadow copy under the deterministic scheduler; non-trivial = at least one lock acquisition; distinct = distinct SHA-1 of the canonical event log",
                samples=samples, traces_validated_against_impl=tie.get("compared", 0),
                disagreements_checked=tie.get("mismatches", 0), distribution=stats,
+               model_configurations_ranked=tie.get("ranked_states", 0), model_configurations_unranked=tie.get("unranked_states", 0),
                known_findings=sorted(known_hits), proof_problems=proof["problems"])
     assumptions = ["interleavings at lock-acquisition granularity are complete for race-free code (Go memory model, DRF-SC): assumed, not proved in Lean",
                    "callbacks are pure; a goroutine with an open cursor performs only cursor operations"]
